@@ -358,3 +358,39 @@ Proof.
   unfold dealt_revs. apply NoDup_rev.
   eapply sdecr_NoDup. apply (rl_decr _ (rloginv_run ls _ (rloginv_init d0))).
 Qed.
+
+(* ---------- the allocator with arbitrary concurrent Commit(rev) ---------- *)
+
+Definition tinv (s : tstate) : Prop := sdecr (t_dealt s + 1) (map snd (t_log s)).
+
+Lemma tinv_step s l : tinv s -> tinv (tstep false s l).
+Proof.
+  unfold tinv. intros I. destruct l as [t|t rev|t|t]; simpl.
+  - split; [lia|exact I].
+  - destruct (t_pc s t); exact I.
+  - destruct (t_pc s t); exact I.
+  - destruct (t_pc s t) as [|rev|rev pre]; try exact I. simpl.
+    destruct (N.ltb_spec pre rev); [|exact I].
+    destruct (N.eqb_spec (t_dealt s) pre) as [E|_]; [|exact I].
+    eapply sdecr_weaken; [|exact I]. lia.
+Qed.
+
+Lemma tinv_run ls : forall s, tinv s -> tinv (trun false ls s).
+Proof. induction ls as [|l ls IH]; intros s I; simpl; [exact I|]. apply IH, tinv_step, I. Qed.
+
+(* whatever revisions Commit is called with, by however many threads, interleaved with Deal in any way:
+   the dealt revisions are strictly increasing in the order of the Deal actions *)
+Theorem tso_dealt_increasing ls d0 : sdecr (t_dealt (trun false ls (tinit d0)) + 1) (map snd (t_log (trun false ls (tinit d0)))).
+Proof. apply tinv_run. simpl. exact Logic.I. Qed.
+
+Theorem tso_dealt_unique ls d0 : NoDup (map snd (t_log (trun false ls (tinit d0)))).
+Proof. eapply sdecr_NoDup, tso_dealt_increasing. Qed.
+
+(* with a plain store in place of the compare-and-swap a revision is dealt twice *)
+Definition tso_plain_witness : list tlabel :=
+  [TCommit 9 12; TLoad 9; TDeal 0; TDeal 1; TDeal 0; TCas 9; TDeal 1].
+
+Lemma tso_plain_store_refuted :
+  map snd (t_log (trun true tso_plain_witness (tinit 10))) = [13; 13; 12; 11]
+  /\ map snd (t_log (trun false tso_plain_witness (tinit 10))) = [14; 13; 12; 11].
+Proof. vm_compute. split; reflexivity. Qed.
